@@ -74,6 +74,8 @@ def build_las(desc):
 def write_text(las, **kw):
     import io
 
+    if isinstance(kw.get("column_fmt"), dict):
+        kw["column_fmt"] = {int(k): v for k, v in kw["column_fmt"].items()}  # cases replayed from JSON carry string keys
     buf = io.StringIO()
     las.write(buf, **kw)
     return buf.getvalue()
